@@ -147,6 +147,16 @@ NormIpv4(addr) ==
      IF \E i \in 1..4 : ~rs[i].ok \/ (rs[i].neg /\ ~IsZeroN(rs[i].n)) THEN [ok |-> FALSE]
      ELSE LET sum == AddN(AddN(ShiftB(rs[1].n, 3), ShiftB(rs[2].n, 2)), AddN(ShiftB(rs[3].n, 1), rs[4].n)) IN
           IF sum.ov THEN [ok |-> FALSE] ELSE [ok |-> TRUE, v |-> Dotted(sum)]
+  ELSE IF nd \in {1, 2} THEN
+     \* a.b (8 + 24 bits) and a.b.c (8 + 8 + 16 bits): every part but the last is one octet, the last fills the rest
+     LET ps == Split(addr, DOT)
+         rs == [i \in 1..(nd + 1) |-> ParseIpv4Int(ps[i])] IN
+     IF \E i \in 1..(nd + 1) : ~rs[i].ok \/ rs[i].n.ov \/ (rs[i].neg /\ ~IsZeroN(rs[i].n)) THEN [ok |-> FALSE]
+     ELSE IF \E i \in 1..nd : rs[i].n.b[2] # 0 \/ rs[i].n.b[3] # 0 \/ rs[i].n.b[4] # 0 THEN [ok |-> FALSE]
+     ELSE IF rs[nd + 1].n.b[4] # 0 \/ (nd = 2 /\ rs[nd + 1].n.b[3] # 0) THEN [ok |-> FALSE]
+     ELSE LET sum == IF nd = 1 THEN AddN(ShiftB(rs[1].n, 3), rs[2].n)
+                     ELSE AddN(AddN(ShiftB(rs[1].n, 3), ShiftB(rs[2].n, 2)), rs[3].n) IN
+          [ok |-> TRUE, v |-> Dotted(sum)]
   ELSE [ok |-> FALSE]
 
 -----------------------------------------------------------------------------
@@ -620,6 +630,13 @@ HostCat == <<
   H(S("2130706433"), "ipv4-int", 1),
   H(S("0x7f000001"), "ipv4-hexint", 1),
   H(S("017700000001"), "ipv4-octint", 1),
+  \* the forms with two and three parts (a.b: 8 + 24 bits, a.b.c: 8 + 8 + 16 bits)
+  H(S("127.1"), "ipv4-2part", 1),
+  H(S("127.0.1"), "ipv4-3part", 1),
+  H(S("0x7f.1"), "ipv4-2part-hex", 1),
+  H(S("127.0.256"), "ipv4-3part-not-this-address", 0),
+  H(S("1.256.3"), "ipv4-3part-overflow", 0),
+  H(S("1.16777216"), "ipv4-2part-overflow", 0),
   H(S("1.2.3.4"), "ipv4-dotted", 0),
   H(S("1.2.3"), "ipv4-3part", 0),
   H(S("1.2.3.4.5"), "ipv4-5part", 0),
